@@ -76,12 +76,22 @@ def prop_elementary(r):
         for p_in, p_out in zip(s, out):
             single = {"rotate": lambda p: p.rotate(act[1]), "tile": lambda p: p.tile_dim(act[1], act[2]),
                       "add_dim": lambda p: p.add_dim(), "canon": lambda p: p.canonicalize()}[act[0]](p_in)
-            if tuple(single.bounds) != tuple(p_out.bounds) or not (single.pattern == p_out.pattern):
+            if tuple(single.bounds) != tuple(p_out.bounds) or not _same_pattern(single.pattern, p_out.pattern):
                 raise Violation(f"elementary:{act[0]}:pattern-vs-collection-differ", None)
     changed = (tuple(out[0].bounds) != tuple(r["bounds"])) or any(
-        not (a.pattern == b.pattern) for a, b in zip(s, out)) if len(out) else False
+        not _same_pattern(a.pattern, b.pattern) for a, b in zip(s, out)) if len(out) else False
     return Info(nontrivial=bool(changed and npts > 1), classes=(f"act:{act[0]}", f"dims:{len(r['bounds'])}",
                                                                  "changed" if changed else "unchanged"))
+
+
+def _same_pattern(a, b):
+    """a == b for AffineTransform objects; transforms of different shape are different (their __eq__ raises on them)."""
+    try:
+        if a.A.shape != b.A.shape or a.b.shape != b.b.shape:
+            return False
+        return bool(a == b)
+    except Exception:
+        return False
 
 
 def _checks(r):
@@ -251,11 +261,15 @@ def _autoflow_strategy(tier):
     @st.composite
     def strat(draw):
         r = draw(C02.recipe(tier))
+        r.pop("sibling", None)
         if r["kind"] == "alu" and not r.get("transpose_in") and r.get("const_row") is None and draw(st.integers(0, 3)) == 0:
             r["neg_off"] = draw(st.integers(1, 3))
         if draw(st.integers(0, 2)) == 0:
             f = st.sampled_from([1, 2, 2, 3])
-            if r["kind"] == "alu":
+            if r["kind"] == "alu" and len(r["shape"]) >= 2 and r["shape"] != r["shape"][::-1] and draw(st.booleans()):
+                # the same extents in another order (e.g. 1x16 and 16x1)
+                r["sibling"] = dict(shape=r["shape"][::-1])
+            elif r["kind"] == "alu":
                 sib = dict(shape=[d * draw(f) for d in r["shape"]])
                 if sib["shape"] == r["shape"]:
                     sib["shape"][-1] *= 2
